@@ -833,6 +833,13 @@ CONTINUATION_TABLE = [
     ("      && roll'", False, "& roll'", False),
     ("   &  &b\"", False, "  &b\"", False),
     ("   & c = 3", False, " c = 3", False),
+    # a continuation line is never searched for a statement label or a construct name
+    ("10 * z", False, "10 * z", False),
+    ("  20 + y &", False, "  20 + y ", True),
+    ("j:k)", False, "j:k)", False),
+    # a blank line inside a continued statement is skipped (wherever it comes from: also directly after a comment line)
+    ("", False, "", True),
+    ("    ", False, "", True),
 ]
 
 
@@ -876,7 +883,8 @@ def rule_continuation(m, rid, omp=False):
     if tail is None:
         r.error("get_source_item: the '&' handling at the end of the free-form continuation loop was not found (anchor changed)")
         return r
-    ev = PE.Evaluator({"extract_label": lambda l_: (None, l_), "extract_construct_name": lambda l_: (None, l_)})
+    from rules import regex_rules as _rx
+    ev = _rx.evaluator_with_funcs(m, "fparser.common.readfortran")     # extract_label / extract_construct_name are the real ones
     omp_rx = omp_fn = None
     if omp:
         sf = reader_func(m, "set_format")
@@ -901,7 +909,7 @@ def rule_continuation(m, rid, omp=False):
             if omp:
                 me.fields["_re_omp_sentinel_cont"] = omp_rx
                 me.fields["replace_omp_sentinels"] = lambda l_, rx_: ev.run_function(omp_fn.node, [l_, rx_])
-            env = {"line": text, "lines": lines, "lines_append": lines.append, "get_single_line": lambda: "<next>",
+            env = {"line": text, "lines": lines, "lines_append": lines.append, "get_single_line": lambda *a_, **k_: "<next>",
                    "self": me, "endlineno": 0, "startlineno": 0, "had_omp_sentinels": bool(omp), "start_index": 0, "qchar": q0,
                    "handle_inline_comment": lambda l_, n_, q_=None: (l_, q_, False), "put_item": lambda x: None,
                    "have_comment": False, "label": None, "name": None, "is_f2py_directive": False}
